@@ -53,15 +53,70 @@ example : wWorld.wf = true ∧ wChain.all Authn.wf = true ∧ wChainOptIn.all Au
 
 /-! ## the tie to the source: regenerated facts -/
 
-/-- Every error value the six authenticators and five extractors construct is, in source order, the one the model
-builds at that place (in particular: `heimdall.ErrArgument` occurs in the extractors and in the JWT parse failure
-only). -/
+/-- The source of today, file by file: `Execute` of each authenticator constructs exactly the error values of the
+model, in the model's order (missing credentials: the extractor's error attached to an authentication error; JWT
+parse failure: authentication + argument error; …); whatever the rest of each authenticator file constructs — any
+number of expressions, in any order — writes no argument error; every error the four extractors construct is
+exactly the argument error; the composite extractor reports nothing but the collected errors (and argument errors). -/
 theorem c04_gen_sites :
-    Gen.anonymous = Facts.anonymous ∧ Gen.unauthorized = Facts.unauthorized ∧ Gen.basic = Facts.basic ∧
-    Gen.jwt = Facts.jwt ∧ Gen.introspection = Facts.introspection ∧ Gen.generic = Facts.generic ∧
-    Gen.headerExtractor = Facts.headerExtractor ∧ Gen.queryExtractor = Facts.queryExtractor ∧
-    Gen.cookieExtractor = Facts.cookieExtractor ∧ Gen.bodyExtractor = Facts.bodyExtractor ∧
-    Gen.compositeExtractor = Facts.compositeExtractor := by decide
+    Gen.anonymous.authenticatorOk [] = true ∧ Gen.unauthorized.authenticatorOk Facts.unauthorizedEntry = true ∧
+    Gen.basic.authenticatorOk Facts.basicEntry = true ∧ Gen.jwt.authenticatorOk Facts.jwtEntry = true ∧
+    Gen.introspection.authenticatorOk Facts.introspectionEntry = true ∧
+    Gen.generic.authenticatorOk Facts.genericEntry = true ∧
+    Gen.headerExtractor.extractorOk = true ∧ Gen.queryExtractor.extractorOk = true ∧
+    Gen.cookieExtractor.extractorOk = true ∧ Gen.bodyExtractor.extractorOk = true ∧
+    Gen.compositeExtractor.compositeExtractorOk = true := by decide
+
+/-- a file like today's introspection authenticator (the witnesses below do not depend on the generated facts) -/
+def wFile : FileFacts :=
+  { entry := Facts.introspectionEntry,
+    others := [[.k .configuration], [.k .authentication, .dyn], [.k .authentication, .dyn], [.k .communication]],
+    loose := [] }
+
+/-- the obligations are not vacuous: they hold for such a file, in whatever order its helpers stand; an argument
+error written into a verification helper breaks them, and so does an `Execute` that no longer attaches the
+extractor's error -/
+example : wFile.authenticatorOk Facts.introspectionEntry = true ∧
+    ({ wFile with others := wFile.others.reverse } : FileFacts).authenticatorOk Facts.introspectionEntry = true ∧
+    ({ wFile with others := [.k .authentication, .k .argument, .dyn] :: wFile.others } :
+      FileFacts).authenticatorOk Facts.introspectionEntry = false ∧
+    ({ wFile with entry := [.k .authentication] :: wFile.entry.drop 1 } :
+      FileFacts).authenticatorOk Facts.introspectionEntry = false := by decide
+
+/-- the composite extractor: today's shape passes, also with a guard that fails closed; masking the collected
+errors with another sentinel does not -/
+example : (⟨[[.dyn]], [], [.dyn]⟩ : FileFacts).compositeExtractorOk = true ∧
+    (⟨[[.k .configuration], [.dyn]], [], [.dyn]⟩ : FileFacts).compositeExtractorOk = true ∧
+    (⟨[[.k .authentication]], [], []⟩ : FileFacts).compositeExtractorOk = false ∧
+    (⟨[[.k .authentication, .dyn]], [], []⟩ : FileFacts).compositeExtractorOk = false ∧
+    (⟨[[.dyn]], [], [.k .internal]⟩ : FileFacts).compositeExtractorOk = false := by decide
+
+/-- the extractors: any number of argument errors, nothing else -/
+example : (⟨[[.k .argument], [.k .argument]], [], []⟩ : FileFacts).extractorOk = true ∧
+    (⟨[[.k .argument], [.k .authentication]], [], []⟩ : FileFacts).extractorOk = false ∧
+    (⟨[], [], []⟩ : FileFacts).extractorOk = false := by decide
+
+/-- **Every error value that the authenticator files of today's source construct outside `Execute`** (signature,
+key, assertion, introspection — fresh or served from the cache —, session, endpoint, response, … failures; however
+many there are and wherever they stand) **is no argument error**, whatever argument-free run-time error is attached
+to it. -/
+theorem c04_source_rejection_sites_are_argument_free (c : Err) (hc : c.is .argument = false) :
+    ∀ s ∈ Gen.basic.others ++ Gen.jwt.others ++ Gen.introspection.others ++ Gen.generic.others ++
+        Gen.unauthorized.others ++ Gen.anonymous.others,
+      (s.build c).is .argument = false := by
+  intro s hs
+  have h := c04_gen_sites
+  simp only [FileFacts.authenticatorOk, Bool.and_eq_true, List.all_eq_true] at h
+  obtain ⟨h0, h1, h2, h3, h4, h5, _⟩ := h
+  simp only [List.mem_append] at hs
+  apply argFree_build s _ c hc
+  rcases hs with ((((hs | hs) | hs) | hs) | hs) | hs
+  · exact h2.1.2 s hs
+  · exact h3.1.2 s hs
+  · exact h4.1.2 s hs
+  · exact h5.1.2 s hs
+  · exact h1.1.2 s hs
+  · exact h0.1.2 s hs
 
 /-- The loop of the composite goes on exactly on `errors.Is(err, ErrArgument) || IsFallbackOnErrorAllowed()`, and no
 other file of the packages the authenticators call into mentions `heimdall.ErrArgument`. -/
@@ -89,7 +144,7 @@ theorem c04_extraction (ss : List Strategy) (r : Req) (hne : ss ≠ []) :
 example : extract defaultSources wReqNone = .error (.chain [argErr, argErr, argErr]) := by decide
 example : extract defaultSources wReqBadJwt = .ok "T1" := by decide
 
-/-- No error value constructed after a credential was found (bad signature, unknown key, failed assertion, inactive
+/-- No error value of the model's vocabulary constructed after a credential was found (bad signature, unknown key, failed assertion, inactive
 token, wrong password, undecodable Basic value, unreachable endpoint, unusable response, missing subject, …) is an
 argument error, whatever argument-free run-time error is attached to it. -/
 theorem c04_rejection_is_never_an_argument_error (c : Err) (hc : c.is .argument = false) :
@@ -133,7 +188,7 @@ theorem c04_builtin_authenticators (w : World) (r : Req) (a : Authn) :
     (a.typ = .unauthorized →
       (∃ e, a.execute w r = .error e ∧ e.is .authentication = true ∧ e.is .argument = false) ∧
       a.fallback = false) := by
-  obtain ⟨id, typ, af, ov⟩ := a
+  obtain ⟨id, typ, af, ov, key⟩ := a
   constructor
   · intro s h; subst h; exact ⟨⟨_, rfl⟩, rfl⟩
   · intro h; subst h
